@@ -276,6 +276,14 @@ void conv_family(sink& out)
     float_to<Tag, SI<L, -4>>(out, -4);
     float_to<Tag, SI<L, 3>>(out, 3);
     float_to<Tag, SI<L, -20>>(out, -20);
+    if constexpr (LHS_INDEX == 2) {
+        // round 9: destinations finer than the source format's significand (24 / 53 / 64 digits): small sources whose
+        // fractional part (in destination units) is a tie or a quarter
+        float_to<Tag, SI<std::int32_t, -30>>(out, -30);
+        float_to<Tag, SI<std::int64_t, -62>>(out, -62);
+        float_to<Tag, SI<std::int64_t, -66>>(out, -66);
+        float_to<Tag, SI<std::int32_t, -24>>(out, -24);
+    }
     // integer destinations that are not built-in types
     float_to<Tag, cnl::elastic_integer<20>>(out, 0);
     float_to<Tag, cnl::elastic_integer<40>>(out, 0);
